@@ -370,10 +370,37 @@ class ParallelSpecFinder(Generic[ClassType1, ObjType1, ClassType2, ObjType2]):
         spec_rules = self._search_matching_info(matching_info)
         if spec_rules is None:
             return None
+        # The second search accepts a pair of labels that both carry a rule already
+        # without descending again, so make sure that the rules chosen below the
+        # roots were matched with each other before building specifications.
+        if not self._assignment_is_matched(matching_info, *spec_rules):
+            return None
         return (
             ParallelSpecFinder._create_spec(spec_rules[0], self._pi1),
             ParallelSpecFinder._create_spec(spec_rules[1], self._pi2),
         )
+
+    def _assignment_is_matched(
+        self, matching_info: MatchingInfo, sp1: SpecMap, sp2: SpecMap
+    ) -> bool:
+        """Check that every pair of rules met when walking the two label maps from
+        the roots, in the order of the recorded matchings, was matched by the first
+        search."""
+        todo = [(self._pi1.root_eq_label, self._pi2.root_eq_label)]
+        seen: Set[Tuple[int, int]] = set()
+        while todo:
+            id1, id2 = todo.pop()
+            if (id1, id2) in seen:
+                continue
+            seen.add((id1, id2))
+            if id1 not in sp1 or id2 not in sp2:
+                return False
+            children1, children2 = sp1[id1], sp2[id2]
+            order = matching_info.get((id1, id2), {}).get((children1, children2))
+            if order is None:
+                return False
+            todo.extend((children1[i], child2) for i, child2 in zip(order, children2))
+        return True
 
     def _search_matching_info(
         self, matching_info: MatchingInfo
@@ -733,14 +760,12 @@ class EqPathParallelSpecFinder(
         if children1 == () == children2:
             return self._atom_path_match(id1, id2, sp1, sp2)
         mem.add((id1, id2))
+        order = matching_info.get((id1, id2), {}).get((children1, children2))
+        if order is None:
+            # The two rules were assigned with other partners and never matched.
+            return False
         for j2, ((j1, child1), child2) in enumerate(
-            zip(
-                (
-                    (i, children1[i])
-                    for i in matching_info[(id1, id2)][(children1, children2)]
-                ),
-                children2,
-            )
+            zip(((i, children1[i]) for i in order), children2)
         ):
             self._path.append((id1, id2, j1, j2))
             check_descendant = self._validate_atoms_for_existing_entries(
